@@ -43,19 +43,27 @@ def materialised_bool(cfg, D):
     if o.place is None or not o.place.is_local or body.lty(o.place.l) != 'bool':
         return None
     ds = cfg.defs.get(o.place.l, [])
+    if len(ds) == 1 and ds[0][0] == D and ds[0][1] != 'call' and ds[0][2].rv['k'] == 'use':
+        # `_t = copy flag; switchInt(move _t)` in the switch block itself: look at the named bool behind the copy
+        src = Operand(ds[0][2].rv['o'])
+        if src.place is not None and src.place.is_local and body.lty(src.place.l) == 'bool':
+            ds = cfg.defs.get(src.place.l, [])
     if len(ds) < 2:
         return None
-    out = {True: [], False: []}
+    out = {True: [], False: [], 'expr': []}
     R = set()
     for (bi, i, st) in ds:
-        if i == 'call' or st.rv['k'] != 'use':
-            return None
-        ops = st.rv_operands()
-        if not ops or not ops[0].is_const:
+        if i == 'call':
             return None
         if bi == D:
             return None
-        out[bool(ops[0].d.get('v'))].append(bi)
+        if st.rv['k'] == 'use' and st.rv_operands() and st.rv_operands()[0].is_const:
+            out[bool(st.rv_operands()[0].d.get('v'))].append(bi)
+        elif st.rv['k'] in ('bin', 'un', 'use'):
+            # `a && b` lowers to  if a { x = b } else { x = false }: the last conjunct is stored as an expression
+            out['expr'].append((bi, st))
+        else:
+            return None
         # follow the goto chain to D
         x = bi
         for _ in range(6):
@@ -91,9 +99,14 @@ def conditions(cfg, E, block, _depth=0):
                     tv = True
                 elif v is not None:
                     tv = (v != 0)
-                if tv is not None and len(mb[tv]) == 1:
+                if tv is not None and len(mb[tv]) == 1 and not mb['expr']:
                     # the tested value was stored by exactly one block: everything known there is known here
                     out.extend(conditions(cfg, E, mb[tv][0], _depth + 1))
+                elif tv is not None and not mb[tv] and len(mb['expr']) == 1:
+                    # only the expression store can have produced this value: it holds, together with what is known there
+                    (xb, xs) = mb['expr'][0]
+                    out.extend(conditions(cfg, E, xb, _depth + 1))
+                    out.append((E.rvalue(xs.rv), tv, xb))
         e = E.switch_cond(cfg.body.blocks[D])
         if v is None:
             if allvals == [0]:
